@@ -33,6 +33,9 @@ fn main() {
     let mut ctx = Ctx::new(&prop, tier, seed, shard, nshards, only, &out, budget);
     ctx.cli = opts.get("cli").cloned();
     ctx.scratch = get("scratch", "/tmp");
+    if let Some(k) = opts.get("known") {
+        ctx.known = k.split('|').filter(|s| !s.is_empty()).map(|s| s.to_string()).collect();
+    }
     if !vh::props::run(&mut ctx) {
         eprintln!("unknown property {}", prop);
         std::process::exit(2);
